@@ -250,6 +250,7 @@ func checkArrayAlgebra(p *Program, r *Report, prop string) {
 	}
 	r.Floor("R01.4", "stride/shape constructions", n4, floor4)
 
+	r.Rule("R01.5", "views are live: a view object holds nothing but strides and the shared storage (no second element buffer), and what Unroll hands out is the storage itself or gathered in the same call, never a copy cached in the view")
 	// R01.2 / R01.3
 	ats := arrayTypes(p)
 	nT := 0
@@ -259,6 +260,7 @@ func checkArrayAlgebra(p *Program, r *Report, prop string) {
 		}
 		nT++
 		tname := at.rel + "." + at.named.Obj().Name()
+		checkUnrollFresh(p, r, at, tname, "R01.5")
 		// R01.2
 		if sl := at.own("Slice"); sl == nil {
 			r.Undecided("R01.2", tname+":Slice", "-", "concrete array type has no Slice method of its own")
